@@ -3,7 +3,7 @@ import numpy as np
 
 from .build import bind_value
 from .common import close, has_nan, short
-from .ir import IllTyped, Unsupported, show, typecheck
+from .ir import IllConditioned, IllTyped, Unsupported, show, typecheck
 from .lift import dom_of, lift
 from .refsem import all_envs, ref_eval
 
@@ -84,8 +84,12 @@ def compare(R, P, rng=None, max_points=256, nreal=2, rtol=1e-6, check_output=Tru
     bound_done = 0
     try:
         for env in all_envs(p_inputs, rng, nreal=nreal, limit=max_points):
-            with np.errstate(all="ignore"):
-                expect = ref_eval(P, env)
+            try:
+                with np.errstate(all="ignore"):
+                    expect = ref_eval(P, env)
+            except IllConditioned:
+                skipped += 1
+                continue
             if has_nan(expect):
                 skipped += 1
                 continue
